@@ -25,11 +25,16 @@ def wave_cases(draw, tier):
     big = tier == 'thorough'
     nl = draw(S.netlists(max_g=16 if big else 8, max_pi=4, max_st=2, families=XOR_RICH, need_d=True, clock_pins=True))
     lanes = draw(st.integers(1, 4 if big else 3))
+    shape = draw(st.integers(0, 11))
+    if shape == 0:
+        lanes = draw(st.sampled_from([31, 32, 33, 35]))        # more lanes than one mock-GPU block is wide (32)
+    elif shape == 1:
+        nl = S.widen(nl, draw(st.integers(15, 22)), draw(st.integers(0, 999)))   # a level wider than one block is high (16), > 16 ports
     n = nl['pi'] + len(nl['st'])
-    waves = draw(W.input_waves(n, lanes, single_only=draw(st.booleans())))
+    waves = draw(W.input_waves(n, lanes, single_only=draw(st.booleans()) or lanes > 8))
     extra = draw(st.integers(1, 3))
     xwaves = draw(W.input_waves(n, extra, single_only=True))
-    pre = draw(W.input_waves(n, lanes))
+    pre = draw(W.input_waves(n, lanes)) if lanes <= 8 else None
     nds = draw(st.integers(1, 3))
     return dict(nl=nl, lanes=lanes, waves=waves, pre=pre, extra=extra, xwaves=xwaves, dpool=draw(W.DELAY_POOL), cap=draw(st.sampled_from([4, 8, 16, 32])),
                 nds=nds, dsel=draw(st.lists(st.integers(0, nds - 1), min_size=lanes, max_size=lanes)), gsel=draw(st.integers(0, nds - 1)),
@@ -154,6 +159,8 @@ def prop_wave(case):
     if stripped: labels.append('forks_really_stripped')
     if len(base.level_starts) >= 3: labels.append('levels>=3')
     if actrl is not None: labels.append('abuf')
+    if lanes > 32: labels.append('lanes>32')
+    if max(int(b_ - a_) for a_, b_ in zip(base.level_starts, base.level_stops)) > 16: labels.append('level_wider_than_16_ops')
     labels.append('style_' + nl['style'])
     return Obs(multi_fork and len(base.level_starts) >= 3 and (reused or stripped), labels, checks=12)
 
